@@ -341,17 +341,12 @@ def lookupIdx (name : Str) : List Module → Option Nat
     | some j => some (j + 1)
     | none => if m.name = name then some 0 else none
 
-/-- the name NewModuleGraph looks up for an input: for source and params inputs it is the source type
-/ the params value (so a params value that happens to be a module name adds an edge) -/
-def InputK.refName : InputK → Str
-  | .params v => v
-  | .source t => t
-  | .map n => n
-  | .store n _ => n
-
+/-- the edge NewModuleGraph adds for an input: only map and store inputs refer to modules (a params
+value or a source type spelled like a module name is not a dependency); an empty name is skipped -/
 def inputEdge (ms : List Module) : Option InputK → Option Nat
-  | none => none
-  | some k => if k.refName = [] then none else lookupIdx k.refName ms
+  | some (.map n) => if n = [] then none else lookupIdx n ms
+  | some (.store n _) => if n = [] then none else lookupIdx n ms
+  | _ => none
 
 def edgesOf (ms : List Module) (m : Module) : List Nat :=
   m.inputs.filterMap (inputEdge ms) ++
@@ -826,7 +821,7 @@ def scheduleStoresOf (eg : ExecGraph) : Outcome (Bool × Nat) :=
 /-! ## The pipeline, stage by stage, in the order of `Tier1Service.Blocks` / `blocks()` -/
 
 inductive Stage where
-  | validate | graph | details | checks | plan | done
+  | validate | graph | details | checks | plan | upto | done
 deriving DecidableEq, Repr
 
 structure Summary where
@@ -872,5 +867,69 @@ def pipelineStaged (r : Request) (cfg : Cfg) : Stage × Outcome Summary :=
           | .ok p => (.done, .ok ⟨eg, d, p⟩)
 
 def pipeline (r : Request) (cfg : Cfg) : Outcome Summary := (pipelineStaged r cfg).2
+
+/-! ## tier2: ProcessRangeRequest.Validate, ValidateTier2Request and the first steps of processRange
+
+  pb/.../intern/v2/validate.go   ProcessRangeRequest.Validate
+  service/validate.go            ValidateTier2Request (shares validateRequest with tier1)
+  service/tier2.go               processRange: NewOutputModuleGraph(out, true, modules, firstStreamable),
+                                 then execGraph.UsedModulesUpToStage(int(request.Stage))
+-/
+
+/-- the internal request, wire level; the three store/metering strings only matter as empty / non-empty -/
+structure T2Request where
+  modules : Option Modules
+  outputModule : Str
+  blockType : Str
+  stage : Nat
+  segmentSize : Nat
+  segmentNumber : Nat
+  firstStreamable : Nat
+  stopBlockNum : Nat
+  meteringConfig : Bool
+  stateStore : Bool
+  mergedBlocksStore : Bool
+deriving Repr
+
+def requestValidateT2 (r : T2Request) : Outcome Modules :=
+  if r.stopBlockNum ≠ 0 then .error                       -- "invalid protocol: update your tier1"
+  else match r.modules with
+    | none => .error
+    | some ms =>
+      if r.outputModule = [] then .error
+      else if !r.meteringConfig then .error
+      else if r.blockType = [] then .error
+      else if !r.stateStore then .error
+      else if !r.mergedBlocksStore then .error
+      else if r.segmentSize = 0 then .error
+      else if subU (wrap ((r.segmentNumber + 1) * r.segmentSize)) 1 < r.firstStreamable then .error
+      else if ms.modules.any (fun m => m.name == r.outputModule) then .ok ms
+      else .error
+
+def validateTier2Request (r : T2Request) : Outcome Modules :=
+  (requestValidateT2 r).bind fun ms =>
+    (validateRequest ms r.outputModule r.blockType).bind fun _ => .ok ms
+
+/-- `Graph.UsedModulesUpToStage(stage)`: `for i := 0; i <= stage; i++ { … g.StagedUsedModules()[i] … }`,
+index out of range when `stage` is not a stage of the graph -/
+def usedModulesUpToStage (eg : ExecGraph) (stage : Nat) : Outcome (List Module) :=
+  if stage < eg.stages.length then .ok ((eg.stages.take (stage + 1)).flatten.flatten) else .panic
+
+structure T2Summary where
+  graph : ExecGraph
+  upTo : List Module
+
+def pipelineTier2Staged (r : T2Request) : Stage × Outcome T2Summary :=
+  match validateTier2Request r with
+  | .error => (.validate, .error) | .panic => (.validate, .panic) | .hang => (.validate, .hang)
+  | .ok ms =>
+    match computeGraph r.outputModule true ms r.firstStreamable with
+    | .error => (.graph, .error) | .panic => (.graph, .panic) | .hang => (.graph, .hang)
+    | .ok eg =>
+      match usedModulesUpToStage eg r.stage with
+      | .error => (.upto, .error) | .panic => (.upto, .panic) | .hang => (.upto, .hang)
+      | .ok l => (.done, .ok ⟨eg, l⟩)
+
+def pipelineTier2 (r : T2Request) : Outcome T2Summary := (pipelineTier2Staged r).2
 
 end SV.Val
